@@ -169,10 +169,14 @@ impl<T: Send> RendezvousSyncSender<T> {
 
 impl<T: Send> Clone for RendezvousSyncSender<T> {
   fn clone(&self) -> Self {
-    self.shared.add_sender();
+    // a clone of a closed handle is closed too: it must not revive a disconnected channel
+    let closed = self.closed.load(Ordering::Relaxed);
+    if !closed {
+      self.shared.add_sender();
+    }
     RendezvousSyncSender {
       shared: Arc::clone(&self.shared),
-      closed: AtomicBool::new(false),
+      closed: AtomicBool::new(closed),
     }
   }
 }
@@ -270,10 +274,14 @@ impl<T: Send> RendezvousSyncReceiver<T> {
 
 impl<T: Send> Clone for RendezvousSyncReceiver<T> {
   fn clone(&self) -> Self {
-    self.shared.add_receiver();
+    // a clone of a closed handle is closed too: it must not revive a disconnected channel
+    let closed = self.closed.load(Ordering::Relaxed);
+    if !closed {
+      self.shared.add_receiver();
+    }
     RendezvousSyncReceiver {
       shared: Arc::clone(&self.shared),
-      closed: AtomicBool::new(false),
+      closed: AtomicBool::new(closed),
     }
   }
 }
@@ -356,10 +364,14 @@ impl<T: Send> RendezvousAsyncSender<T> {
 
 impl<T: Send> Clone for RendezvousAsyncSender<T> {
   fn clone(&self) -> Self {
-    self.shared.add_sender();
+    // a clone of a closed handle is closed too: it must not revive a disconnected channel
+    let closed = self.closed.load(Ordering::Relaxed);
+    if !closed {
+      self.shared.add_sender();
+    }
     RendezvousAsyncSender {
       shared: Arc::clone(&self.shared),
-      closed: AtomicBool::new(false),
+      closed: AtomicBool::new(closed),
     }
   }
 }
@@ -443,10 +455,14 @@ impl<T: Send> RendezvousAsyncReceiver<T> {
 
 impl<T: Send> Clone for RendezvousAsyncReceiver<T> {
   fn clone(&self) -> Self {
-    self.shared.add_receiver();
+    // a clone of a closed handle is closed too: it must not revive a disconnected channel
+    let closed = self.closed.load(Ordering::Relaxed);
+    if !closed {
+      self.shared.add_receiver();
+    }
     RendezvousAsyncReceiver {
       shared: Arc::clone(&self.shared),
-      closed: AtomicBool::new(false),
+      closed: AtomicBool::new(closed),
     }
   }
 }
